@@ -462,6 +462,17 @@ func reifyMergeValue(
 		return reifyValue(opts, t, val)
 	}
 
+	switch old.Kind() {
+	case reflect.Struct, reflect.Array, reflect.Map:
+		if !old.CanSet() {
+			// a value held by an interface or stored in a map: it can not be
+			// updated in place. Merge into a copy and hand that back.
+			tmp := reflect.New(old.Type()).Elem()
+			tmp.Set(old)
+			old, oldValue = tmp, tmp
+		}
+	}
+
 	baseType := chaseTypePointers(old.Type())
 
 	if tConfig.ConvertibleTo(baseType) {
